@@ -75,7 +75,7 @@ const ppHeader = "PROXY TCP4 198.51.100.7 203.0.113.2 1111 2222\r\n"
 func handedOver(kind byte, i, payload int) string {
 	full := stream(kind, i, payload)
 	switch kind {
-	case 'G':
+	case 'G', 'H':
 		return string(full[2:])
 	case 'W':
 		return string(full[len(ppHeader):])
@@ -85,6 +85,11 @@ func handedOver(kind byte, i, payload int) string {
 
 func stream(kind byte, i, payload int) []byte {
 	s := []byte{kind, byte('0' + i)}
+	if kind == 'H' {
+		// matched by the consuming (non-terminal) route first, then, on what is left, by a
+		// terminal route that comes later in the list
+		s = []byte{'G', byte('0' + i), 'L'}
+	}
 	if kind == 'W' {
 		s = append([]byte(ppHeader), s...)
 	}
@@ -370,7 +375,7 @@ func check(x *explore.Exec, sc *Scn, r *result) {
 			if n == 0 && !r.servers[i].Closed() {
 				x.Fail("pending-not-closed", "connection %d was neither delivered nor closed at the end; %s", i, desc())
 			}
-		case 'T', 'L':
+		case 'T', 'L', 'H':
 			if count[want] > 0 {
 				x.Fail("consumed-delivered", "connection %d was consumed by a terminal handler and also delivered; %s", i, desc())
 			}
@@ -441,7 +446,7 @@ func scenarios(tier string, yield0 func(any) bool) {
 			}
 		}
 	}
-	mixes = append(mixes, "FFF", "FTF", "FFT", "WFW", "WWF", "S", "SF", "FS", "SS", "ST", "SU", "R", "RF", "L", "LF", "FL")
+	mixes = append(mixes, "FFF", "FTF", "FFT", "WFW", "WWF", "S", "SF", "FS", "SS", "ST", "SU", "R", "RF", "L", "LF", "FL", "H", "HF", "FH")
 	if os.Getenv("VERIF_C13_SUBSET") == "stream" {
 		// as the listener-wrapper part of C01: what the wrapped listener's consumer reads is the
 		// client's stream from the first unconsumed byte (plain, after a consuming route, after
